@@ -109,13 +109,17 @@ def build(u):
         u.count('R-continue', g.guard_continues())
     guarded(u, 'hermes::decode_hermes__function_map', lambda: lift_function_map(u), prep, wrap=lambda: None)
 
-    u.raw('stub decode_regular', '''//@@ prelude decode_regular_stub
-//# assumes: nothing about decode_regular beyond its being a function of the raw document (its parts are under contract in u4 / u10)
-pub uninterp spec fn decode_regular_res(rsm: RawSourceMap) -> Result<SourceMap>;
-#[verifier::external_body]
-pub fn decode_regular(rsm: RawSourceMap) -> (res: Result<SourceMap>)
-    ensures res == decode_regular_res(rsm)
-{ unimplemented!() }
-//@@ endprelude
-''')
+    # decode_regular: put together and proved in U10
+    u.prelude('shim_option_or.rs')
+    u.prelude('shim_enumerate.rs')
+    u.prelude('bitvec_stub.rs')
+    u.spec('order.rs')
+    u.spec('tokens.rs')
+    u.spec('root.rs')
+    u.spec('mappings.rs')
+    u.spec('bits.rs')
+    u.spec('mappings_dec.rs')
+    u.spec('decode_regular.rs')
+    from .u10_tail import skeleton
+    u.import_fn(skeleton(u), 'decoder::decode_regular', 'u10_tail.ctr', 'u10_tail')
     guarded(u, 'hermes::decode_hermes', lambda: wrapper(u), None, wrap=lambda: None)
